@@ -110,6 +110,29 @@ class PriceFeature(Feature):
         return self.last
 
 
+class PriceState(IState):
+    """A user-defined state with parse() implemented: IState saves a deep copy of every parsed
+    observation into ``history`` keyed by the time of the latest update."""
+
+    def __init__(self, contract=None, log=None, envbox=None):
+        self.contract = contract
+        self.log = log if log is not None else []
+        self.envbox = envbox if envbox is not None else []
+        self.last = 0.0
+        super().__init__()
+
+    def process_EventNBBO(self, event):
+        if event.contract == self.contract:
+            self.last = (event.bid_price + event.ask_price) / 2
+        env = self.envbox[0] if self.envbox else None
+        self.log.append({"kind": "NBBO", "event": event, "time": event.time, "now": env.now() if env else None,
+                         "nreb": len(env.broker.track_record) if env and env.broker else None,
+                         "tag": getattr(event, "_tag", None)})
+
+    def parse(self):
+        return self.last
+
+
 def t_eq(a, b):
     """Equality of two (possibly symbolic) timestamps as a SymBool / bool."""
     return a == b
@@ -315,6 +338,8 @@ class Episode:
             kw["broker_fees"] = BrokerFees(proportional=0.001, fixed=0.01, markup=cfg.get("markup", 0.0))
         if cfg.get("feature"):
             self.recorder = IState([PriceFeature(self.contracts[0], self.log, self.envbox)], save=False)
+        if cfg.get("state_history"):
+            self.recorder = PriceState(self.contracts[0], self.log, self.envbox)
         self.env = TradingEnv(action_space=self.space, state=self.recorder, transmitter=self.transmitter,
                               latency=self.L, steps_delay=cfg.get("delay", 0),
                               episode_length=cfg.get("episode_length"), **kw)
